@@ -508,15 +508,8 @@ def modelOp (d : DState) (toks : List String) : Option OpOut :=
               (db, sb, r1)
             else
               let (db, sb, _) := applyLabels da sa [g]
-              let dc := applyEvicts (putSess db sb)
-              match getSess dc n with
-              | some sc => applyLabels dc sc [.wdeliver sa.conn.pendW.length.pred]
-              | none => (dc, sb, Res.na)
-          else
-            let db := applyEvicts d
-            match getSess db n with
-            | some sb => applyLabels db sb [.write msg ctx false, g]
-            | none => (db, s, Res.na)
+              applyLabels db sb [.wdeliver sa.conn.pendW.length.pred]
+          else applyLabels d s [.write msg ctx false, g]
         let s1 := if isCall && res == .ok then { s1 with calls := s1.calls ++ [(tag, ctx, false)] } else s1
         let (d2, s2) := settle d1 s1
         { d := putSess d2 s2, snaps := [n], tail := " w=" ++ showRes res isCall ++ " win=" ++ (if win then "1" else "0") }
@@ -534,24 +527,9 @@ def modelOp (d : DState) (toks : List String) : Option OpOut :=
         let w : Label String := .write msg ctx false
         let g : Label String := .get (parseHdr s (kvGet gargs "last")) (parseVer (kvGet gargs "hv")) (parseBudget (kvGet gargs "b"))
         if gn != n then { d := d, snaps := [n] } else
-        -- evictions reported in this record happen inside the write's `Append` (after the harness' park point).
-        -- When both touch the same stream the second party waits for the stream lock, so the forced order holds;
-        -- otherwise the parked party is simply overtaken: the other one runs to completion first.
-        let hdrG := parseHdr s (kvGet gargs "last")
-        let sameStream := ((route s.conn msg ctx).map (·.id)) == some hdrG.sid
-        let writeGoesFirst := if sameStream then writeFirst else !writeFirst
-        let (d1, s1, res) :=
-          if writeGoesFirst then
-            let db := applyEvicts d
-            match getSess db n with
-            | some sb => applyLabels db sb [w, g]
-            | none => (db, s, Res.na)
-          else
-            let (da, sa, _) := applyLabels d s [g]
-            let db := applyEvicts (putSess da sa)
-            match getSess db n with
-            | some sb => applyLabels db sb [w]
-            | none => (db, sa, Res.na)
+        -- (the harness lifts the store's limit for the duration of a race: evictions reported in this record happened
+        -- after both parties were done and are applied at the end of the op, like for any other op)
+        let (d1, s1, res) := applyLabels d s (if writeFirst then [w, g] else [g, w])
         let s1 := if isCall && res == .ok then { s1 with calls := s1.calls ++ [(tag, ctx, false)] } else s1
         let (d2, s2) := settle d1 s1
         { d := putSess d2 s2, snaps := [n], tail := " w=" ++ showRes res isCall }
